@@ -16,6 +16,7 @@ class Interp(_Base):
     def __init__(self, ctx):
         super().__init__(ctx)
         self.cur_fnode = []
+        self.construct_log = None
 
     # ------------------------------------------------------------------
     # calls
@@ -317,6 +318,11 @@ class Interp(_Base):
             else:
                 if self.on_construct is not None:
                     self.on_construct(self, s, s.heap[obj.oid], node)
+                if self.construct_log is not None:
+                    o2 = s.heap[obj.oid]
+                    self.construct_log.append((o2.site, self.where(node), o2.cls.name,
+                                               dict(o2.attrs), o2.cal,
+                                               self.cur_func[0] if self.cur_func else "?"))
                 out.append((s, ref))
         return out
 
@@ -666,7 +672,9 @@ class Interp(_Base):
                 return [(st, self.raised("datetime-field", "ValueError", node,
                                          "datetime {}={} outside [{},{}]".format(k, v, lo, hi)))]
         self.site_counter += 1
-        dt = DTV(("dtnew", self.where(node), self.site_counter), fields=f)
+        dt = DTV(("dtnew",) + tuple(
+            (f[k].sym if k in f else ("const", 0)) for k in ("year", "month", "day", "hour", "minute")),
+            fields=f)
         status = self.calendar_status(st, f["year"], f["month"], f["day"])
         if status in ("REAL", "CHECKED", "CONST-OK"):
             return [(st, dt)]
